@@ -1,4 +1,5 @@
 -- Root of the `TflModel` library: executable model (Mathlib-free), lemmas and property theorems.
 import TflModel.Model.Core
 import TflModel.Model.Wire
+import TflModel.Props.C01
 import TflModel.Props.C06
